@@ -314,8 +314,18 @@ func VerifHarness_C09_assembler() {
 		lower = vPick("lower", 0, 1) == 1
 		signedA = vPick("signedA", 0, 1) == 1
 	}
+	// layout: entry point first (ORG n) or last (END n); the '88 dialect has
+	// only END. The last line may lack its newline.
+	endLast := legacy
+	finalNL := true
+	if vParam("vary") == 1 {
+		if !legacy {
+			endLast = vPick("endLast", 0, 1) == 1
+		}
+		finalNL = vPick("finalNL", 0, 1) == 1
+	}
 	var t []token
-	if !legacy {
+	if !endLast {
 		t = append(t, tText("ORG"), tNum(d.Start), tNL)
 	}
 	for _, c := range d.Code {
@@ -335,8 +345,11 @@ func VerifHarness_C09_assembler() {
 		}
 		t = append(t, tComma, tSym(vModeNames[c.BMode]), token{tokNumber, vDecU(uint64(c.B))}, tNL)
 	}
-	if legacy {
+	if endLast {
 		t = append(t, tText("END"), tNum(d.Start), tNL)
+	}
+	if !finalNL {
+		t = t[:len(t)-1]
 	}
 	t = append(t, token{tokEOF, ""})
 	vUnwind(400)
